@@ -3,7 +3,8 @@
 //! Op file (one `case` = one data model + data set + any number of queries):
 //!   case id=<n> e=c05 ns=<0|1>
 //!   ent k=<i>
-//!   fld e=<i> k=<j> ty=<I|S|B|R|A> [to=<entity>] mod=<r|n|d> [dv=<Val>] [late=1]
+//!   fld e=<i> k=<j> ty=<I|S|B|R|A> [to=<entity>] mod=<r|n|d> [dv=<Val>] [late=1] [then=<Val>]
+//!        (then: a nullable field becomes `default <Val>` in the upgraded model)
 //!   build                               create the first model version (fields without late=1) and the database
 //!   row id=<n> e=<i> v=<j>:<Val>|…  r=<j>:<id.id…>|…     fields not listed are omitted from the mutation
 //!   upgrade                             add the late fields, one model version each
@@ -30,6 +31,8 @@ pub struct FieldDef {
     pub md: char,
     pub dv: Option<Val>,
     pub late: bool,
+    /// a nullable field that becomes `default <then>` (not nullable) in the upgraded model
+    pub then: Option<Val>,
 }
 
 #[derive(Clone, Debug, Default)]
@@ -63,8 +66,6 @@ pub struct Case {
     pub nodes: HashMap<usize, Node>,
     pub upgraded: bool,
     pub last_full: Option<Vec<String>>, // canonical rows of the last `run` (for the paging oracle)
-    pub last_keys_null: bool,
-    pub last_keys_tied: bool,
 }
 
 fn ent_name(c: &Case, i: usize) -> String {
@@ -75,7 +76,7 @@ fn ent_name(c: &Case, i: usize) -> String {
     }
 }
 
-fn type_text(c: &Case, f: &FieldDef) -> String {
+fn type_text(c: &Case, f: &FieldDef, upgraded: bool) -> String {
     let base = match f.ty {
         'I' => "Integer".to_string(),
         'S' => "String".to_string(),
@@ -83,6 +84,11 @@ fn type_text(c: &Case, f: &FieldDef) -> String {
         'R' => ent_name(c, f.to),
         _ => format!("[{}]", ent_name(c, f.to)),
     };
+    if upgraded {
+        if let Some(t) = &f.then {
+            return format!("{} default {}", base, lit(t));
+        }
+    }
     match f.md {
         'n' => format!("{} nullable", base),
         'd' => format!("{} default {}", base, lit(f.dv.as_ref().unwrap_or(&Val::Null))),
@@ -115,7 +121,7 @@ fn model_text(c: &Case, upto_late: usize) -> String {
                     continue;
                 }
             }
-            fields.push(format!("f{}: {}", j, type_text(c, f)));
+            fields.push(format!("f{}: {}", j, type_text(c, f, upto_late > 0)));
         }
         s.push_str(&format!(" E{} {{ {} }}", i, fields.join(", ")));
     }
@@ -362,7 +368,14 @@ pub fn step(c: &mut Case, kind: &str, kv: &HashMap<String, String>, stats: &mut 
             if (ty == 'R' || ty == 'A') && kv.get("to").is_none() {
                 return "bad-op".into();
             }
-            c.ents[e].push(FieldDef { ty, to, md, dv, late: kv.get("late").map(|x| x == "1").unwrap_or(false) });
+            let then = match kv.get("then") {
+                Some(x) => match Val::parse(x) {
+                    Some(v) if md == 'n' && "ISB".contains(ty) => Some(v),
+                    _ => return "bad-op".into(),
+                },
+                None => None,
+            };
+            c.ents[e].push(FieldDef { ty, to, md, dv, late: kv.get("late").map(|x| x == "1").unwrap_or(false), then });
             "ok".into()
         }
         "build" => match Conn::new(&model_text(c, 0)) {
@@ -374,7 +387,7 @@ pub fn step(c: &mut Case, kind: &str, kv: &HashMap<String, String>, stats: &mut 
             Err(e) => format!("err:{}", e),
         },
         "upgrade" => {
-            let n = n_late(c);
+            let n = std::cmp::max(n_late(c), 1);
             for k in 1..=n {
                 let m = model_text(c, k);
                 if let Some(db) = c.db.as_mut() {
@@ -555,6 +568,33 @@ pub fn step(c: &mut Case, kind: &str, kv: &HashMap<String, String>, stats: &mut 
                     stats.add("c05.result_rows", rows.len() as u64);
                     let txt = format!("res=[{}]", rows.join(","));
                     c.last_full = Some(rows);
+                    // condition coverage: is each root filter constant on this data set? (measured with the real engine)
+                    if let Some(orig) = c.nodes.get(&0).cloned() {
+                        if !orig.filters.is_empty() {
+                            let mut base = orig.clone();
+                            base.filters.clear();
+                            base.first = 0;
+                            base.skip = 0;
+                            base.after.clear();
+                            base.before.clear();
+                            c.nodes.insert(0, base.clone());
+                            let total = c.run_query(None).map(|x| x.len()).ok();
+                            for f in &orig.filters {
+                                let mut one = base.clone();
+                                one.filters = vec![f.clone()];
+                                c.nodes.insert(0, one);
+                                let n = c.run_query(None).map(|x| x.len()).ok();
+                                match (total, n) {
+                                    (Some(t), Some(n)) if t == 0 => { let _ = n; stats.inc("c05.filter.no_candidate_rows") }
+                                    (Some(t), Some(n)) if n == t => stats.inc("c05.filter.constant_true"),
+                                    (Some(_), Some(0)) => stats.inc("c05.filter.constant_false"),
+                                    (Some(_), Some(_)) => stats.inc("c05.filter.discriminating"),
+                                    _ => stats.inc("c05.filter.unmeasured"),
+                                }
+                            }
+                            c.nodes.insert(0, orig);
+                        }
+                    }
                     txt
                 }
                 Err(e) => {
